@@ -31,7 +31,8 @@ type Config struct {
 	Shared   int    `json:"shared"`
 	Size     int    `json:"size"`
 	Procs    int    `json:"procs"`
-	ColdOpen bool   `json:"cold"` // reopen the cache before the run so that shared bugs are not loaded
+	ColdOpen bool   `json:"cold"`   // reopen the cache before the run so that shared bugs are not loaded
+	Rounds   int    `json:"rounds"` // rounds of concurrent calls with a barrier (and a consistency check) in between; 0 = 1
 }
 
 type Ack struct {
@@ -63,6 +64,7 @@ type Result struct {
 	ClockFile int        `json:"clockfile"`
 	ClockMem  int        `json:"clockmem"`
 	Crash     string     `json:"crash"`
+	Stale     string     `json:"stale"` // at a barrier: an excerpt that is not what its instance holds
 }
 
 type rng struct{ s uint64 }
@@ -127,110 +129,135 @@ func one(cfg Config) *Result {
 		}
 		mu.Unlock()
 	}
-	var wg sync.WaitGroup
-	var progress int64
-	start := make(chan struct{})
-	for g := 1; g <= cfg.Workers; g++ {
-		wg.Add(1)
-		go func(g int) {
-			defer wg.Done()
-			defer func() {
-				if p := recover(); p != nil {
-					mu.Lock()
-					res.Panics = append(res.Panics, fmt.Sprintf("g%d: %v", g, p))
-					mu.Unlock()
-				}
-			}()
-			r := &rng{s: cfg.Seed*1000003 + uint64(g)*7919 + 1}
-			var private []entity.Id
-			<-start
-			for k := 0; k < cfg.Calls; k++ {
-				atomic.AddInt64(&progress, 1)
-				choice := r.n(10)
-				var id entity.Id
-				if cfg.Shared > 0 && (choice < 6 || len(private) == 0) {
-					id = bugIds[r.n(cfg.Shared)]
-				} else if len(private) > 0 {
-					id = private[r.n(len(private))]
-				}
-				switch {
-				case choice == 9 || (cfg.Shared == 0 && len(private) == 0):
-					b, op, err := c.Bugs().New(fmt.Sprintf("private g%d k%d", g, k), "message")
-					if err != nil {
-						fail(g, "New", err)
-						continue
-					}
-					n := register(b.Id())
-					private = append(private, b.Id())
-					ack(g, n, op.Id())
-				case choice == 8:
-					q, _ := query.Parse("status:open")
-					if _, err := c.Bugs().Query(q); err != nil {
-						fail(g, "Query", err)
-					}
-				default:
-					b, err := c.Bugs().Resolve(id)
-					if err != nil {
-						fail(g, "Resolve", err)
-						continue
-					}
-					mu.Lock()
-					n := bugNo[id]
-					mu.Unlock()
-					switch r.n(4) {
-					case 0, 1:
-						_, op, err := b.AddComment(fmt.Sprintf("comment g%d k%d", g, k))
-						if err == nil {
-							err = b.Commit()
-							if err != nil {
-								maybe(g, n, op.Id())
-							}
-						}
-						if err != nil {
-							fail(g, "AddComment+Commit", err)
-							continue
-						}
-						ack(g, n, op.Id())
-					case 2:
-						op, err := b.SetTitle(fmt.Sprintf("title g%d k%d", g, k))
-						if err == nil {
-							err = b.Commit()
-							if err != nil {
-								maybe(g, n, op.Id())
-							}
-						}
-						if err != nil {
-							fail(g, "SetTitle+Commit", err)
-							continue
-						}
-						ack(g, n, op.Id())
-					case 3:
-						_ = b.Snapshot()
-					}
-				}
-			}
-		}(g)
+	rounds := cfg.Rounds
+	if rounds < 1 {
+		rounds = 1
 	}
-	done := make(chan struct{})
-	go func() { wg.Wait(); close(done) }()
-	close(start)
-	// a deadlock is the absence of progress, not slowness: no call completed anywhere for 15 seconds
 	stuck := false
-	last, idle := int64(-1), 0
-watch:
-	for {
-		select {
-		case <-done:
-			break watch
-		case <-time.After(time.Second):
-			if p := atomic.LoadInt64(&progress); p == last {
-				idle++
-			} else {
-				last, idle = p, 0
-			}
-			if idle >= 15 {
-				stuck = true
+	for round := 0; round < rounds && !stuck && res.Stale == ""; round++ {
+		var wg sync.WaitGroup
+		var progress int64
+		start := make(chan struct{})
+		for g := 1; g <= cfg.Workers; g++ {
+			wg.Add(1)
+			go func(g int) {
+				defer wg.Done()
+				defer func() {
+					if p := recover(); p != nil {
+						mu.Lock()
+						res.Panics = append(res.Panics, fmt.Sprintf("g%d: %v", g, p))
+						mu.Unlock()
+					}
+				}()
+				r := &rng{s: cfg.Seed*1000003 + uint64(g)*7919 + uint64(round)*104729 + 1}
+				var private []entity.Id
+				<-start
+				for k := 0; k < cfg.Calls; k++ {
+					atomic.AddInt64(&progress, 1)
+					choice := r.n(10)
+					var id entity.Id
+					if cfg.Shared > 0 && (choice < 6 || len(private) == 0) {
+						id = bugIds[r.n(cfg.Shared)]
+					} else if len(private) > 0 {
+						id = private[r.n(len(private))]
+					}
+					switch {
+					case choice == 9 || (cfg.Shared == 0 && len(private) == 0):
+						b, op, err := c.Bugs().New(fmt.Sprintf("private g%d k%d", g, k), "message")
+						if err != nil {
+							fail(g, "New", err)
+							continue
+						}
+						n := register(b.Id())
+						private = append(private, b.Id())
+						ack(g, n, op.Id())
+					case choice == 8:
+						q, _ := query.Parse("status:open")
+						if _, err := c.Bugs().Query(q); err != nil {
+							fail(g, "Query", err)
+						}
+					default:
+						b, err := c.Bugs().Resolve(id)
+						if err != nil {
+							fail(g, "Resolve", err)
+							continue
+						}
+						mu.Lock()
+						n := bugNo[id]
+						mu.Unlock()
+						switch r.n(4) {
+						case 0, 1:
+							_, op, err := b.AddComment(fmt.Sprintf("comment g%d k%d", g, k))
+							if err == nil {
+								err = b.Commit()
+								if err != nil {
+									maybe(g, n, op.Id())
+								}
+							}
+							if err != nil {
+								fail(g, "AddComment+Commit", err)
+								continue
+							}
+							ack(g, n, op.Id())
+						case 2:
+							op, err := b.SetTitle(fmt.Sprintf("title g%d k%d", g, k))
+							if err == nil {
+								err = b.Commit()
+								if err != nil {
+									maybe(g, n, op.Id())
+								}
+							}
+							if err != nil {
+								fail(g, "SetTitle+Commit", err)
+								continue
+							}
+							ack(g, n, op.Id())
+						case 3:
+							_ = b.Snapshot()
+						}
+					}
+				}
+			}(g)
+		}
+		done := make(chan struct{})
+		go func() { wg.Wait(); close(done) }()
+		close(start)
+		// a deadlock is the absence of progress, not slowness: no call completed anywhere for 15 seconds
+		last, idle := int64(-1), 0
+	watch:
+		for {
+			select {
+			case <-done:
 				break watch
+			case <-time.After(time.Second):
+				if p := atomic.LoadInt64(&progress); p == last {
+					idle++
+				} else {
+					last, idle = p, 0
+				}
+				if idle >= 15 {
+					stuck = true
+					break watch
+				}
+			}
+		}
+		if !stuck && rounds > 1 {
+			// everybody is done with this round: what the cache lists about a bug is what its instance holds
+			mu.Lock()
+			ids := append([]entity.Id{}, bugIds...)
+			mu.Unlock()
+			for _, id := range ids {
+				e, err1 := c.Bugs().ResolveExcerpt(id)
+				b, err2 := c.Bugs().Resolve(id)
+				if err1 != nil || err2 != nil {
+					continue
+				}
+				s := b.Snapshot()
+				if e.Title != s.Title || e.LenComments != len(s.Comments) || e.EditLamportTime != b.EditLamportTime() {
+					res.Stale = fmt.Sprintf("after round %d the excerpt of bug %s says title=%q comments=%d edit time=%d, its instance title=%q comments=%d edit time=%d",
+						round+1, id.Human(), e.Title, e.LenComments, e.EditLamportTime, s.Title, len(s.Comments), b.EditLamportTime())
+					break
+				}
 			}
 		}
 	}
@@ -358,6 +385,11 @@ func Run(args []string) {
 		cfg := Config{Seed: seed*131 + uint64(i), Workers: []int{2, 3, 4, 8, 16}[i%5], Calls: 6 + i%7, Shared: []int{1, 2, 0, 1}[i%4],
 			Size: []int{1000, 1000, 1000, 2, 1000, 1000, 1, 1000}[i%8], Procs: []int{16, 4, 1, 8, 2}[(i/2)%5], ColdOpen: i%3 != 2}
 		cfgs = append(cfgs, cfg)
+	}
+	// hot spots: many workers on one or two shared bugs, no eviction, many short rounds
+	for i := 0; i < runs/4+1; i++ {
+		cfgs = append(cfgs, Config{Seed: seed*977 + uint64(i), Workers: []int{4, 8, 6}[i%3], Calls: 3 + i%3, Shared: 1 + i%2, Size: 1000,
+			Procs: []int{16, 8, 4}[i%3], ColdOpen: false, Rounds: 40})
 	}
 	results := make([]*Result, len(cfgs))
 	hx.Parallel(len(cfgs), 4, func(i int) {
